@@ -144,6 +144,8 @@ RoundTrip == AllInvol(chain) => \A th \in Thetas, F \in Fishers :
 (* a lost chain is never regular; regular maps keep every value defined *)
 LostNeverRegular == Lost(chain) => \A th \in Thetas : ~Regular(chain, ThetaF(th))
 
+(* squares make rationals explode (32-bit integers): at most one per chain in the case space *)
+SqAtMostOnce == Cardinality({k \in 1..Len(chain) : chain[k].t = "sq"}) <= 1
 EmitChain == PrintT(ToJson([chain |-> chain, cancelled |-> Cancel(chain)]))
 (* C05: the model's exact answer for every (chain, theta, F) *)
 Case(th, F) ==
